@@ -199,6 +199,13 @@ def cases(seed, tier):
         if rng.random() < 0.15:
             d["attrs"] = d["attrs"] + [{"on": "vertices", "type": "float", "arity": 3, "dense": rng.random() < 0.5, "dflt": False,
                                        "fill": 1.0, "name": "normals"}]
+        ru = random.Random(d["seed"] ^ 0x7575)  # own stream: the cases above do not depend on it
+        if base == "surface" and ru.random() < 0.2:
+            # texture coordinates (the attribute the OBJ writer exports as vt), per corner or per vertex; with or without vertex normals
+            d["attrs"] = d["attrs"] + [{"on": ru.choice(["face_corners", "face_corners", "vertices"]), "type": "float", "arity": 2, "dense": ru.random() < 0.5,
+                                       "dflt": False, "fill": 1.0, "name": "uv_coords"}]
+            if ru.random() < 0.5 and not any(a.get("name") == "normals" for a in d["attrs"]):
+                d["attrs"] = d["attrs"] + [{"on": "vertices", "type": "float", "arity": 3, "dense": ru.random() < 0.5, "dflt": False, "fill": 1.0, "name": "normals"}]
         out.append(d)
     # coordinate containers / dtypes (own generator stream, so that the cases above do not depend on it)
     rng2 = random.Random(seed * 7927 + 404)
@@ -1007,7 +1014,7 @@ def _foreign_attrs(rng, plan, sizes):
     """Attribute specs for the reference geogram writer (geogram-native element types only)."""
     attrs, made = {}, []
     for a in plan:
-        if a["type"] not in REF_TYPE_OF or a.get("name") == "normals":
+        if a["type"] not in REF_TYPE_OF or a.get("name") in ("normals", "uv_coords"):
             continue
         n = sizes.get(a["on"], 0)
         if n == 0:
